@@ -1273,3 +1273,48 @@ def check_vex_listing_assembles(db, rep, rule, workdir):
                   "while the machine code is valid" % (f.name, c.line, rows[key[0]]["name"], tnames.get(T, T), "VEX.256" if key[3] == V256 else "VEX.128", line),
                   line=c.line)
     return n
+
+
+def check_labels_distinct(db, rep, rule):
+    """Branch destinations: the x86 skeleton numbers its local labels by hand (`1:` ... `7:`, then two computed families
+    `8 + shift` and `label_step_up + shift`).  Orc resolves a label number to its LAST definition, GNU as resolves `5f` to the
+    NEAREST following `5:`; the two agree only while every label number is defined once per function.  All definitions with a
+    constant number in orcprogram-x86.c must be pairwise distinct and lie below the base of the computed families."""
+    from facts import AnalysisBroken
+    from flow import linear
+    tu = db.tu("orcprogram-x86")
+    defs = []
+    bases = []
+    for f in tu.main_functions():
+        for c in f.calls("orc_x86_emit_cpuinsn_label"):
+            a = c.args()
+            if len(a) < 3:
+                continue
+            e = strip_casts(a[2])
+            if e.v is not None:
+                defs.append((e.v, f, c))
+            else:
+                l = linear(a[2])
+                if l is not None and l[0] is not None and "label_step_up" not in l[0]:
+                    bases.append(l[1])
+                rep.saw(f)
+    if len(defs) < 5:
+        raise AnalysisBroken("only %d constant label definitions found in orcprogram-x86.c" % len(defs))
+    seen = {}
+    n = 0
+    for v, f, c in sorted(defs, key=lambda d: (d[2].line)):
+        n += 1
+        rep.saw(f)
+        prev = seen.get(v)
+        low = min(bases) if bases else None
+        bad = None
+        if prev is not None:
+            bad = "label %d is also defined in %s (line %s)" % (v, prev[0].name, prev[1].line)
+        elif low is not None and v >= low:
+            bad = "label %d lies in the range of the computed labels, which start at %d" % (v, low)
+        seen.setdefault(v, (f, c))
+        rep.check(bad is None, rule, "orc/orcprogram-x86.c::%s" % f.name, "label:%d@%s" % (v, c.line),
+                  "label %d is defined once" % v,
+                  "%s defines local label %d (line %s), but %s: a 2-D program that takes both paths gets `%d:` twice in its listing; `as` binds `%df` to the "
+                  "nearest definition, Orc's fixups to the last one, so listing and machine code branch to different places" % (f.name, v, c.line, bad, v, v), line=c.line)
+    return n
